@@ -262,7 +262,12 @@ func (d *DBI) indexData() error {
 			b := data[offset : offset+size : offset+size]
 			switch tag {
 			case FieldDBIEntries:
-				// ignore
+				// Not kept, but it must be well-formed: entries are only
+				// decoded again during the merge, where an error is fatal.
+				var kv KV
+				if err := kv.Unmarshal(b); err != nil {
+					return fmt.Errorf("dbi entry: %w", err)
+				}
 			case FieldDBIName:
 				d.name = string(b)
 			case FieldDBITransform:
